@@ -395,6 +395,10 @@ func (kcp *KCP) Send(buffer []byte) int {
 				if len(seg.data) < int(kcp.mss) {
 					capacity := int(kcp.mss) - len(seg.data)
 					extend := min(len(buffer), capacity)
+					// refuse before touching the queue if the rest needs too many segments
+					if (len(buffer)-extend+int(kcp.mss)-1)/int(kcp.mss) > 255 {
+						return -2
+					}
 
 					// grow slice, the underlying cap is guaranteed to
 					// be larger than kcp.mss
